@@ -580,6 +580,19 @@ def c19(work, tier, seed):
     quick = tier == "quick"
     # the decoder specification against itself: Decode(Encode(x)) = x over the game graph
     mc_chess(work, rep, tier, ["FenInv"])
+    # the placement cursor as the decoder processes it, on a small board, for EVERY token string up to a
+    # length: never indexes off the board, accepted => every piece on its own square and all squares
+    # accounted for; the 8-bit cursor without bounds checks (as first coded) is rejected by the same model
+    cons = {"NF": 2, "NR": 3, "MaxDigit": 3, "Mod": 0, "Checked": "TRUE", "MaxLen": 8 if quick else 10}
+    r = vlib.tlc(work, "FenCursor", vlib.cfg_text(constants=cons, invariants=["NeverCrashes", "NoDuplicate", "AcceptedIsExact"]),
+                 workers=vlib.NCPU, timeout=3000, heap="8g")
+    vlib.need_tlc_ok(r, "FenCursor")
+    rep.add_tlc(r)
+    r2 = vlib.tlc(work, "FenCursor", vlib.cfg_text(constants=dict(cons, Mod=8, Checked="FALSE"), invariants=["NeverCrashes", "NoDuplicate", "AcceptedIsExact"]),
+                  workers=4, timeout=600, heap="4g", name="FenCursor-wrap")
+    if r2.ok:
+        raise Inconclusive("FenCursor.tla: the wrapping unchecked cursor is not rejected")
+    rep.extra["mc_fen_cursor"] = {"states": r.distinct, "constants": cons, "deviation_rejected": "Mod=8, Checked=FALSE"}
     shards = 8 if quick else 16
     n = 1500 if quick else 60000
 
@@ -784,6 +797,9 @@ def uci_scenarios(work, vh, rep, props, seed, tier, want_real=True):
         rep.sample(vlib.read_line(tr[0].trace, 1)[:800])
         rep.sample(vlib.read_line(tr[0].trace, 2)[:1500])
     vlib.absorb_trace_results(rep, tr)
+    unsettled = rep.cov.get("unsettled", 0)
+    if unsettled * 7 > max(1, rep.traces):
+        raise Inconclusive("UCI scenarios: %d of %d scenarios did not come to rest in time (machine too loaded?)" % (unsettled, rep.traces))
     answered = sum(v for k, v in rep.cov.items() if k.startswith("scenario|") and not k.endswith("best=0"))
     if answered < 5:
         raise Inconclusive("UCI scenarios: too few answered searches (%d)" % answered)
